@@ -43,7 +43,10 @@ def header_block(attrs: list[tuple], version: int = 2, magic: bytes = b"DataTran
 
 def build(rng, *, payload: bytes, key: bytes, iv: bytes, extra_attrs: list[tuple] | None = None, aad: bytes | None = None,
           padding: int = 0, key_info: str = "7e62cec5-6aef-4d7e-838b-cae32eefd251", cipher_name: str = "AES-256-GCM",
-          version: int = 2, footer_version: int = 1, order: str = "sample", key_hash: bytes | None = None, tag_size_field: int = 16):
+          version: int = 2, footer_version: int = 1, order: str = "sample", key_hash: bytes | None = None, tag_size_field: int = 16,
+          fill: int | None = None):
+    """fill: add a bytes attribute sized so that the attribute area ends `fill` bytes before the end of the 4096-byte
+    header block (0 = the terminator ends exactly at the block end, no padding at all)."""
     req = [
         ("vmware.iv", T_BYTES, 0, iv),
         ("vmware.keyInfo", T_STRING, 0, key_info),
@@ -51,6 +54,11 @@ def build(rng, *, payload: bytes, key: bytes, iv: bytes, extra_attrs: list[tuple
         ("vmware.keyHash", T_BYTES, 0, key_hash if key_hash is not None else hashlib.sha256(cipher_name.encode() + key).digest()),
     ]
     attrs = req + list(extra_attrs or [])
+    if fill is not None:
+        used = sum(len(attr_record(*a)) for a in attrs)
+        vlen = BLOCK - 512 - 4 - used - (4 + len("x.fill") + 1 + 8) - fill
+        if vlen >= 0:
+            attrs.append(("x.fill", T_BYTES, 0, bytes(rng.randrange(256) for _ in range(vlen))))
     if order == "shuffle":
         rng.shuffle(attrs)
     hdr, index = header_block(attrs, version=version)
